@@ -1,5 +1,6 @@
 use crate::object::{Object, Type};
 use bitvec::prelude as bv;
+use std::collections::{HashMap, HashSet};
 
 // TODO: Change visibility of GC to crate-private (not directly possible because of pub Object type)
 pub struct GC {
@@ -83,13 +84,21 @@ impl GC {
         self.mark_bitmap.clear();
         self.mark_bitmap.resize(self.objects.len(), false);
 
+        // The position of every managed object, so marking does not have to search for it
+        let index: HashMap<*mut u8, usize> = self
+            .objects
+            .iter()
+            .enumerate()
+            .map(|(i, o)| (o.as_ptr(), i))
+            .collect();
+
         // Arrays that are reachable but not managed by this collector (they can still refer to objects that are)
-        let mut foreign = Vec::new();
+        let mut foreign = HashSet::new();
 
         // Mark all reachable objects
         for root in roots.iter() {
             for obj in root.iter() {
-                self.mark(obj, &mut foreign);
+                self.mark(obj, &index, &mut foreign);
             }
         }
 
@@ -118,29 +127,29 @@ impl GC {
     }
 
     /// Marks the given object as reachable
-    fn mark(&mut self, o: &Object, foreign: &mut Vec<*mut u8>) {
+    fn mark(
+        &mut self,
+        o: &Object,
+        index: &HashMap<*mut u8, usize>,
+        foreign: &mut HashSet<*mut u8>,
+    ) {
         if !o.is_heap_allocated() {
             return;
         }
 
-        let index = self
-            .objects
-            .iter()
-            .position(|a| std::ptr::eq(a.as_ptr(), o.as_ptr()));
-
-        match index {
-            Some(index) => {
+        match index.get(&o.as_ptr()).copied() {
+            Some(position) => {
                 // No need to mark recursively on arrays if this one was
                 // already marked (e.g. because the same object was found
                 // in multiple places such as the stack and the result of
                 // a function call).
-                if !self.mark_bitmap[index] {
-                    self.mark_bitmap.set(index, true);
+                if !self.mark_bitmap[position] {
+                    self.mark_bitmap.set(position, true);
 
                     if o.tag() == Type::Array {
                         // Safety: we already checked the type.
                         for v in unsafe { o.as_vec_unchecked() } {
-                            self.mark(v, foreign);
+                            self.mark(v, index, foreign);
                         }
                     }
                 }
@@ -148,11 +157,10 @@ impl GC {
             None => {
                 // This object is not managed by this collector, so it is never freed here.
                 // If it is an array it can still hold objects that are, so look inside (once).
-                if o.tag() == Type::Array && !foreign.contains(&o.as_ptr()) {
-                    foreign.push(o.as_ptr());
+                if o.tag() == Type::Array && foreign.insert(o.as_ptr()) {
                     // Safety: we already checked the type.
                     for v in unsafe { o.as_vec_unchecked() } {
-                        self.mark(v, foreign);
+                        self.mark(v, index, foreign);
                     }
                 }
             }
